@@ -508,3 +508,72 @@ Section NusAssembly.
     Qed.
   End WithRing.
 End NusAssembly.
+
+(** ** 5. the composed room model ([Model/Full.v]) computes its form factors itself: the matrix of
+    [room_scene] IS [patch2patch_ff_full] of the room's own tiling, normals, areas and visible-pair
+    list -- no form-factor value is an input of the room *)
+From SV Require Import Model.Tiling Model.Frame Model.Full.
+
+Section NusRoom.
+  Context {T : Type} {O : Ops T}.
+  Variable rm : @room T.
+
+  Lemma room_F_is_full :
+    s_F (room_scene rm) =
+    patch2patch_ff_full (rm_thres rm) (rm_cut rm) (rm_thr_seg rm) (rm_thr_dot rm) (rm_thr_lag rm)
+      (rm_patch_pts rm) (pr_normals (rm_processed rm)) (s_areas (room_scene rm)) (vis_pairs (room_scene rm)).
+  Proof. reflexivity. Qed.
+
+  (** the patch polygons, normals and areas are those of the tiling of the walls *)
+  Lemma room_geometry_is_tiling :
+    rm_patch_pts rm = map verts (concat (map (fun q => create_patches q (rm_patch_size rm)) (rm_walls rm))) /\
+    pr_normals (rm_processed rm) = map (fun w => nthv (rm_normals rm) w) (pr_wall_ids (rm_processed rm)) /\
+    s_areas (room_scene rm) = map poly_area (rm_patch_pts rm).
+  Proof. repeat split. Qed.
+
+  Lemma room_areas_length : length (s_areas (room_scene rm)) = rm_np rm.
+  Proof. cbn [room_scene s_areas]. unfold rm_areas, rm_np. apply map_length. Qed.
+
+  (** a visible pair i < j holds the model's Nusselt value when the two patches touch and the
+      Stokes value otherwise *)
+  Lemma room_visible_entry i j :
+    i < j -> j < rm_np rm -> vis_sym (room_scene rm) i j = true ->
+    get2 (s_F (room_scene rm)) i j =
+    if coincidence_check (rm_thres rm) (nth j (rm_patch_pts rm) []) (nth i (rm_patch_pts rm) [])
+    then nusselt_ff (rm_thr_seg rm) (rm_thr_dot rm) (rm_thr_lag rm)
+           (nth i (rm_patch_pts rm) []) (nthv (pr_normals (rm_processed rm)) i)
+           (nth j (rm_patch_pts rm) []) (nthv (pr_normals (rm_processed rm)) j)
+    else stokes_integration (rm_cut rm) (nth i (rm_patch_pts rm) []) (nth j (rm_patch_pts rm) [])
+           (area (room_scene rm) i).
+  Proof.
+    intros Hij Hj Hv. rewrite room_F_is_full.
+    apply p2p_full_listed; rewrite ?room_areas_length; [lia|exact Hj|].
+    apply pair_in_In. apply in_vis_pairs. cbn [room_scene s_np].
+    split; [lia|]. split; [exact Hj|].
+    unfold vis_sym in Hv. destruct (Nat.ltb_spec i j); [exact Hv|lia].
+  Qed.
+
+  Theorem room_form_factors_computed {RL : RingLaws T} {OL : OrderLaws T} {FL : FieldLaws T} i j :
+    let sc := room_scene rm in
+    s_F sc = patch2patch_ff_full (rm_thres rm) (rm_cut rm) (rm_thr_seg rm) (rm_thr_dot rm) (rm_thr_lag rm)
+               (rm_patch_pts rm) (pr_normals (rm_processed rm)) (s_areas sc) (vis_pairs sc) /\
+    (i < j -> j < rm_np rm -> vis_sym sc i j = true ->
+       get2 (s_F sc) i j =
+       if coincidence_check (rm_thres rm) (nth j (rm_patch_pts rm) []) (nth i (rm_patch_pts rm) [])
+       then nusselt_ff (rm_thr_seg rm) (rm_thr_dot rm) (rm_thr_lag rm)
+              (nth i (rm_patch_pts rm) []) (nthv (pr_normals (rm_processed rm)) i)
+              (nth j (rm_patch_pts rm) []) (nthv (pr_normals (rm_processed rm)) j)
+       else stokes_integration (rm_cut rm) (nth i (rm_patch_pts rm) []) (nth j (rm_patch_pts rm) [])
+              (area sc i)) /\
+    (area sc i <> 0%T -> vis_sym sc i j = false ->
+       (if i <? j then get2 (s_F sc) i j else get2 (s_F sc) j i) = 0%T /\
+       ff_full sc i j = 0%T /\
+       forall d b, get4 (tilde sc) i j d b = 0%T) /\
+    (i <> j -> area sc i <> 0%T -> area sc j <> 0%T ->
+       (area sc i * ff_full sc i j)%T = (area sc j * ff_full sc j i)%T).
+  Proof.
+    cbv zeta. split; [exact room_F_is_full|]. split; [exact (room_visible_entry i j)|]. split.
+    - exact (full_invisible_zero (room_scene rm) _ _ _ _ _ _ _ i j room_F_is_full).
+    - exact (full_reciprocity (room_scene rm) _ _ _ _ _ _ _ i j room_F_is_full).
+  Qed.
+End NusRoom.
